@@ -38,8 +38,14 @@ var c10Kinds = []string{"Validate", "ValidateWithConfiguration", "CompileProfile
 func genC10(t *rapid.T) c10Case {
 	var c c10Case
 	np := rapid.IntRange(1, 3).Draw(t, "profiles")
+	// different profiles may carry the same name (and always share validation names): nothing may be keyed by it
+	sameName := rapid.Bool().Draw(t, "sameName")
 	for i := 0; i < np; i++ {
-		text, graphs, _ := genProfileAndGraphs(t, fmt.Sprintf("c10-%d", i), rapid.IntRange(1, 2).Draw(t, "graphs"))
+		name := fmt.Sprintf("c10-%d", i)
+		if sameName {
+			name = "c10"
+		}
+		text, graphs, _ := genProfileAndGraphs(t, name, rapid.IntRange(1, 2).Draw(t, "graphs"))
 		// profiles of one schedule may bind the same prefix to different namespaces (and declare a prefix another
 		// profile uses undeclared): per-compilation state must not leak between concurrent compilations
 		ns := m.NS
